@@ -30,6 +30,9 @@ impl Bytes {
     // bytes::Bytes::to_vec (via Deref<[u8]>): a copy of the bytes
     #[verifier::external_body]
     pub fn to_vec(&self) -> (r: Vec<u8>) ensures r@ == self@ { unimplemented!() }
+    // bytes::Bytes::len / is_empty: the number of bytes
+    pub fn len(&self) -> (r: usize) ensures r == self@.len() { self.v.len() }
+    pub fn is_empty(&self) -> (r: bool) ensures r == (self@.len() == 0) { self.v.len() == 0 }
 }
 impl Clone for Bytes {
     #[verifier::external_body]
